@@ -537,7 +537,6 @@ func cleanupScore(f *ssa.Function) int {
 	return len(seen)
 }
 
-
 // roleFuncs: the functions that rules identify by role; they stay opaque calls when a role function's graph is inlined.
 func (lc *lifecycle) roleFuncs(p *Program) map[*ssa.Function]bool {
 	m := map[*ssa.Function]bool{}
@@ -560,7 +559,6 @@ func (lc *lifecycle) roleFuncs(p *Program) map[*ssa.Function]bool {
 	}
 	return m
 }
-
 
 // pat: the provenance-chain segment of a context field, e.g. "Context.ref<-" (names taken from the program, not fixed).
 func (lc *lifecycle) pat(f *types.Var) string {
